@@ -181,6 +181,35 @@ theorem iconEstimate_ge (T : CpcTables) (lgK c : Nat) (e : K) (h : @iconEstimate
     rw [← h]
     exact le_ite_clamp _ _ (fun hge => hge)
 
+/-- the exponential branch too, given `r ≤ γ·2^r` for r ≥ 5 (true of the real power function: `realFns_expOK`) -/
+theorem iconEstimate_ge_all (hexp : F.ExpOK) (T : CpcTables) (lgK c : Nat) (e : K) (h : @iconEstimate K (fieldNum F) T lgK c = some e) :
+    (c : K) ≤ e ∧ (c < 2 → e = c) := by
+  by_cases hpoly : c < 2 ∨ ¬ ((c : K) > (if lgK < 14 then litK c5_7 else litK c5_6) * ((2 ^ lgK : Nat) : K))
+  · exact iconEstimate_ge F T lgK c e h hpoly
+  · have hc : ¬ c < 2 := fun h' => hpoly (Or.inl h')
+    have hx : (c : K) > (if lgK < 14 then litK c5_7 else litK c5_6) * ((2 ^ lgK : Nat) : K) := by
+      by_contra h'; exact hpoly (Or.inr h')
+    unfold iconEstimate at h
+    simp only [nat_eq, lit_eq] at h
+    split at h
+    · simp at h
+    simp only [hc, if_false, hx, if_true, Option.some.injEq] at h
+    refine ⟨?_, fun h' => absurd h' hc⟩
+    rw [← h]
+    unfold iconExponentialApproximation
+    simp only [lit_eq, litK_c2, pow_eq]
+    have hk : (0 : K) < ((2 ^ lgK : Nat) : K) := by exact_mod_cast Nat.pos_of_ne_zero (by positivity)
+    have hthr : (5 : K) ≤ (if lgK < 14 then litK c5_7 else litK c5_6) := by
+      split <;> simp [litK, c5_7, c5_6] <;> norm_num
+    have hr : (5 : K) ≤ (c : K) / ((2 ^ lgK : Nat) : K) := by
+      rw [le_div_iff₀ hk]; nlinarith
+    have := hexp _ hr
+    have h2 : (c : K) = (c : K) / ((2 ^ lgK : Nat) : K) * ((2 ^ lgK : Nat) : K) := by field_simp
+    calc (c : K) = (c : K) / ((2 ^ lgK : Nat) : K) * ((2 ^ lgK : Nat) : K) := h2
+      _ ≤ (litK cIconExp * F.pow 2 ((c : K) / ((2 ^ lgK : Nat) : K))) * ((2 ^ lgK : Nat) : K) :=
+          mul_le_mul_of_nonneg_right this (le_of_lt hk)
+      _ = litK cIconExp * ((2 ^ lgK : Nat) : K) * F.pow 2 ((c : K) / ((2 ^ lgK : Nat) : K)) := by ring
+
 /-! ### the four confidence functions behind cpc_sketch::get_lower_bound / get_upper_bound -/
 
 theorem pairHipHigh : ConfPair cpcT.hipHighSide cpcT.hipErrorConstant := Or.inr (Or.inr (Or.inl ⟨rfl, rfl⟩))
